@@ -1672,7 +1672,13 @@ class Interp:
             return LazyIter(recv.start, recv.stages + [("enumerate", None)])
         if name in ("into_iter", "iter", "by_ref", "peekable", "fuse") and not args:
             return recv
-        gen = self.lazy_items(recv)
+        if name == "next" and not args:
+            # `next` consumes: the iterator object keeps its position (a counter handed out one by one inside a closure)
+            if getattr(recv, "gen", None) is None:
+                recv.gen = self.lazy_items(recv)
+            v = next(recv.gen, Unknown("unbounded iterator exhausted"))
+            return v if is_unknown(v) else Var(SOME_PATHS[0], [v])
+        gen = getattr(recv, "gen", None) or self.lazy_items(recv)
         if name == "take" and len(args) == 1 and isinstance(args[0], int):
             out = []
             for v in gen:
@@ -1725,6 +1731,11 @@ class Interp:
 
     def builtin_method(self, name, cn, recv, args, n):
         if isinstance(recv, Var) and recv.path.endswith("ops::RangeFrom") and isinstance(recv.fields.get("start"), int):
+            if name == "next" and not args:
+                # a raw `start..` kept in a local and consumed one by one: the range value itself advances
+                v0 = recv.fields["start"]
+                recv.fields["start"] = v0 + 1
+                return Var(SOME_PATHS[0], [v0])
             recv = LazyIter(recv.fields["start"])
         if isinstance(recv, LazyIter):
             return self.lazy_method(name, recv, args)
